@@ -1,35 +1,10 @@
-/-
-Operation table of the model driver.  Each op parses its arguments, runs the model at
-carrier `Float` (IEEE doubles, same as numpy) or `Rat` (exact), and prints one line.
--/
-import Driver.Parse
-import ZepidVerif.Model.Core
+/- Driver ops for C07 / C19: count calculators and data-frame effect-measure classes. -/
+import Driver.Common
 import ZepidVerif.Model.Measures
-import ZepidVerif.Model.Bounds
 import ZepidVerif.Gen.Calc
-import ZepidVerif.Gen.Weights
 import ZepidVerif.Gen.Frechet
 namespace ZVD
 open ZV
-
-instance : NatCast Float := ⟨Float.ofNat⟩
-instance : ZV.Transc Float := ⟨Float.exp, Float.log, Float.sqrt⟩
-
-def nan : Float := Float.ofBits 0x7ff8000000000000
-def finf : Float := Float.ofBits 0x7ff0000000000000
-
-/-- `norm.ppf` as a one-entry table supplied by the harness (scipy's value at the point the code must ask for);
-    any other argument yields NaN, so a wrong quantile argument shows up in the correspondence. -/
-def ppfTab (px pz : Float) : Float → Float := fun x => if x == px then pz else nan
-
-def showErr : Err → String
-  | .nonpositive => "nonpositive" | .negative => "negative" | .badBound => "badBound"
-  | .badInput => "badInput" | .notSpecified => "notSpecified" | .cyclic => "cyclic"
-
-def showResults (r : Results Float) : String :=
-  s!"point={showFloat r.point} lower={showFloat r.lower} upper={showFloat r.upper} se={showFloat r.se}"
-
-def fl (a : Args) (k : String) : Except String Float := need a k parseFloat
 
 /-- the eight count-based calculators, dispatched by name (Float carrier; `infv` = +inf) -/
 def calc4 (fn : String) (ppf : Float → Float) (a b c d alpha : Float) : Option (Except Err (Results Float)) :=
@@ -114,30 +89,6 @@ def opFrechetQ (a : Args) : Except String String := do
   let (lo, hi) := Measures.frechet rows lvl
   pure s!"ok lower={showRat lo} upper={showRat hi}"
 
-def parseSpec (s : String) : Option (Bounds.BoundSpec Float) :=
-  if s == "str" then some .str
-  else if s == "int" then some .int
-  else if s.startsWith "float:" then (parseFloat (s.drop 6).toString).map .float
-  else if s.startsWith "seq:" then
-    let body := (s.drop 4).toString
-    let items := if body == "" then [] else body.splitOn ";"
-    (items.mapM fun t => if t == "s" then some none else (parseFloat t).map some).map .seq
-  else none
-
-def opBounds (a : Args) : Except String String := do
-  let spec ← need a "spec" parseSpec
-  let v ← need a "v" (parseList parseFloat)
-  match Bounds.probabilityBounds v spec with
-  | .ok r => pure ("ok v=" ++ showList showFloat r)
-  | .error e => pure ("err " ++ showErr e)
-
-def dispatch (op : String) (a : Args) : Except String String :=
-  match op with
-  | "ping" => pure "ok pong"
-  | "calc" => opCalc a
-  | "frame" => opFrame a
-  | "frechetq" => opFrechetQ a
-  | "bounds" => opBounds a
-  | _ => throw ("unknown-op:" ++ op)
+def opsC07 : OpTable := [("calc", opCalc), ("frame", opFrame), ("frechetq", opFrechetQ)]
 
 end ZVD
